@@ -21,6 +21,25 @@ import (
 )
 
 // roundNE rounds the positive rational n/d to p significant bits, nearest even, exactly.
+// withinHalfUlp: |f - exact| <= half a unit in the last place of a p-bit float of exact's magnitude.
+func withinHalfUlp(f *big.Float, exact *big.Rat, p uint) bool {
+	if f.IsInf() {
+		return false
+	}
+	fr, _ := f.Rat(nil)
+	diff := new(big.Rat).Sub(fr, exact)
+	diff.Abs(diff)
+	e := roundNE(exact, p).MantExp(nil) // value = m * 2^e, 0.5 <= |m| < 1, so one ulp at p bits is 2^(e-p)
+	half := new(big.Rat).SetInt64(1)
+	k := e - int(p) - 1
+	if k >= 0 {
+		half.SetInt(new(big.Int).Lsh(big.NewInt(1), uint(k)))
+	} else {
+		half.SetFrac(big.NewInt(1), new(big.Int).Lsh(big.NewInt(1), uint(-k)))
+	}
+	return diff.Cmp(half) <= 0
+}
+
 func roundNE(r *big.Rat, p uint) *big.Float {
 	f := new(big.Float).SetPrec(p).SetMode(big.ToNearestEven)
 	f.SetRat(r) // big.Float.SetRat is correctly rounded (quotient of two exact big.Floats at precision p)
@@ -167,9 +186,40 @@ func c02Deep(ctx *Ctx) {
 		want := roundNE(new(big.Rat).Quo(ra, rb), p)
 		ctx.Eval("divpin "+encVal(a)+" "+encVal(b), true)
 		ctx.Tag("d02:div-pinned")
-		if res.AsBigFloat().Cmp(want) != 0 || res.AsBigFloat().Prec() != p {
-			ctx.Fail(Failure{Site: "arith-halfulp", Sig: "pinned:quo", What: "the quotient is not the exact quotient rounded to nearest-even at max(precisions) bits",
+		// The property speaks of the value ("to within the precision of the operands"); the precision the result is stored
+		// at is compared by the num.quo correspondence, and a drift there alone is a broken tie, not a failing input.
+		if res.AsBigFloat().Cmp(want) != 0 && !withinHalfUlp(res.AsBigFloat(), new(big.Rat).Quo(ra, rb), p) {
+			ctx.Fail(Failure{Site: "arith-halfulp", Sig: "pinned:quo", What: "the quotient is not within half a unit in the last place (at max(precisions) bits) of the exact quotient",
 				Input: encVal(a) + " " + encVal(b), GoLit: fmt.Sprintf("%#v ; %#v", a, b), Outcome: res.GoString() + " want " + want.Text('g', 40)})
+		}
+	}
+
+	// --- Divide / Modulo on the 64-bit and 32-bit boundaries: whole quotients that fit are exact, remainders are truncated-division remainders
+	{
+		grid := []int64{math.MinInt64, math.MinInt64 + 1, math.MaxInt64, math.MaxInt64 - 1, math.MinInt32, math.MaxInt32, -(1 << 53), 1 << 53, 1<<53 + 1, -3, -2, -1, 1, 2, 3, 7, 1 << 31, 1 << 32, -(1 << 62), 1 << 62}
+		for _, x := range grid {
+			for _, y := range grid {
+				a, b := cty.NumberIntVal(x), cty.NumberIntVal(y)
+				key := fmt.Sprintf("int64grid %d %d", x, y)
+				lit := fmt.Sprintf("cty.NumberIntVal(%d) ; cty.NumberIntVal(%d)", x, y)
+				ctx.Eval(key, true)
+				ctx.Tag("d02:int64-boundary-grid")
+				bx, by := big.NewInt(x), big.NewInt(y)
+				q, r := new(big.Int).QuoRem(bx, by, new(big.Int))
+				var dv, mv cty.Value
+				if p, _ := try(func() { dv = a.Divide(b); mv = a.Modulo(b) }); p {
+					ctx.Fail(Failure{Site: "arith-exact-int", Sig: "int64grid-panic", What: "Divide / Modulo panicked on whole 64-bit operands with a non-zero divisor", Input: key, GoLit: lit, Outcome: "panic"})
+					continue
+				}
+				if r.Sign() == 0 { // whole quotient of at most 65 bits: fits every precision cty uses, so it is exact
+					if got := ratOf(dv); got == nil || got.Cmp(new(big.Rat).SetInt(q)) != 0 {
+						ctx.Fail(Failure{Site: "arith-exact-int", Sig: "int64grid:quo", What: "a whole quotient of two 64-bit integers is not exact", Input: key, GoLit: lit, Outcome: dv.GoString() + " want " + q.String()})
+					}
+				}
+				if got := ratOf(mv); got == nil || got.Cmp(new(big.Rat).SetInt(r)) != 0 {
+					ctx.Fail(Failure{Site: "modulo", Sig: "int64grid:mod", What: "Modulo of two 64-bit integers is not the remainder of truncated division", Input: key, GoLit: lit, Outcome: mv.GoString() + " want " + r.String()})
+				}
+			}
 		}
 	}
 
